@@ -286,11 +286,11 @@ def run(ctx):
     if lib.fn(NEW) is None:
         ctx.missing('R10.1', 'anchor:new', 'Fst::new not found')
         return
-    f, pv, L, recs = collect(ctx, lib)
-    V, Ln, Rt, meta_of = atoms(ctx, 'R10.1', f, pv, L, recs)
+    f, pv, L, recs = ctx.step(collect, ctx, lib)
+    V, Ln, Rt, meta_of = ctx.step(atoms, ctx, 'R10.1', f, pv, L, recs)
     ctx.count('constructor_paths', len(recs))
-    r10_1_4(ctx, f, pv, L, recs, V, Ln, Rt)
-    r10_2(ctx, f, pv, L, recs, V, Ln, meta_of)
-    r10_3(ctx)
-    r10_5(ctx)
-    r10_6(ctx)
+    ctx.step(r10_1_4, ctx, f, pv, L, recs, V, Ln, Rt)
+    ctx.step(r10_2, ctx, f, pv, L, recs, V, Ln, meta_of)
+    ctx.step(r10_3, ctx)
+    ctx.step(r10_5, ctx)
+    ctx.step(r10_6, ctx)
